@@ -10,7 +10,7 @@ import eqlgen as G
 
 a = args()
 rep = Report("C03", "pairs of conditions over 2 shared object variables (13 atoms, and_/or_/not_, exists/for_all) x 3 worlds x "
-             "{list, generator} domains x {separate, shared} attribute nodes x 7 schedules; rule trees (7 shapes) x 3 schedules", a.out)
+             "{list, generator} domains x {separate, shared} attribute nodes x 7 schedules; rule trees (7 shapes) x 3 schedules; one query object with exists(selected, flatten(...)) nested / resumed at every cut / alternating x 3 worlds", a.out)
 
 A2 = G.atoms(("x", "y"))
 SEL = [("var", "x"), ("var", "y")]
@@ -552,4 +552,64 @@ for with_alt in (False, True):
             rep.fail("rule-abandon-then-again::lists::content", f"rule '{name}' abandoned (closed) after {k} results, then evaluated again: "
                      f"{len(again) if st2 == 'ok' else type(again).__name__} results, alone {len(ref)}", {"rule": name, "schedule": f"abandon-{k}"})
             break
+
+# ---- the selected variable itself under exists(...) over a flattened collection: ONE query object, two evaluations alive at once
+def _exists_selected_scenarios():
+    from dataclasses import dataclass, field as _field
+    from typing import List
+    from krrood.entity_query_language.entity import entity, let, exists, flatten
+    from krrood.entity_query_language.quantify_entity import an
+    from krrood.entity_query_language.predicate import Symbol
+
+    @dataclass(eq=False)
+    class PartC03(Symbol):
+        weight: int
+
+    @dataclass(eq=False)
+    class BoxC03(Symbol):
+        name: str
+        parts: List[PartC03] = _field(default_factory=list)
+
+    for wname, spec in (("mixed", [[1, 7], [2], [8, 9], [6], [10, 1]]), ("all-hold", [[6], [7, 8], [9]]), ("repeats", [[7, 7], [1], [7], [8, 7]])):
+        boxes = [BoxC03(f"b{i}", [PartC03(w) for w in ws]) for i, ws in enumerate(spec)]
+
+        def fresh():
+            box = let(BoxC03, domain=list(boxes))
+            return an(entity(box, exists(box, flatten(box.parts).weight > 5)))
+        st, ref = guarded(lambda: [b.name for b in fresh().evaluate()])
+        if st == "exc":
+            rep.fail(f"raised::exists-selected::{wname}", f"{type(ref).__name__}: {ref}", {"world": wname}); continue
+        q = fresh()
+        st, pairs = guarded(lambda: [(x.name, y.name) for x in q.evaluate() for y in q.evaluate()])
+        rep.case(("exists-selected", wname, "nested"))
+        if st == "exc" or pairs != [(x, y) for x in ref for y in ref]:
+            rep.fail("exists-selected::nested::content", f"world {wname}: nested loops over one query with exists(selected, flatten(...)) give "
+                     f"{len(pairs) if st == 'ok' else type(pairs).__name__} pairs, {len(ref) ** 2} expected", {"world": wname, "schedule": "nested"})
+        for k in range(1, len(ref) + 1):
+            q = fresh(); it = q.evaluate()
+            st, head = guarded(lambda: [next(it).name for _ in range(k)])
+            st2, second = guarded(lambda: [b.name for b in q.evaluate()])
+            st3, rest = guarded(lambda: [b.name for b in it])
+            rep.case(("exists-selected", wname, "resumed", k))
+            if "exc" in (st, st2, st3) or second != ref or head + rest != ref:
+                rep.fail("exists-selected::resumed::content", f"world {wname}: iterator held after {k} results, the query evaluated again in between: "
+                         f"second={second}, resumed={(head + rest) if 'exc' not in (st, st3) else 'raised'}, alone={ref}", {"world": wname, "schedule": f"resumed-{k}"})
+                break
+        q = fresh(); i1, i2 = iter(q.evaluate()), iter(q.evaluate()); o1, o2 = [], []
+        def _alt():
+            live = [(i1, o1), (i2, o2)]
+            while live:
+                for pair in list(live):
+                    try:
+                        pair[1].append(next(pair[0]).name)
+                    except StopIteration:
+                        live.remove(pair)
+        st, _ = guarded(_alt)
+        rep.case(("exists-selected", wname, "alternating"))
+        if st == "exc" or o1 != ref or o2 != ref:
+            rep.fail("exists-selected::alternating::content", f"world {wname}: two live iterators of one query stepped alternately give {o1} / {o2}, alone {ref}",
+                     {"world": wname, "schedule": "alternating"})
+
+
+_exists_selected_scenarios()
 rep.finish()
